@@ -94,7 +94,7 @@ class Beh(object):
     nchildren: child processes it forks at start; child_obey: their reaction (same convention)."""
 
     def __init__(self, obey=0.0, exit_at=None, exit_status=0, nchildren=0, child_obey=0.0,
-                 grandchildren=0, die_as='signal'):
+                 grandchildren=0, die_as='signal', ignore=()):
         self.obey = obey
         self.exit_at = exit_at
         self.exit_status = exit_status
@@ -102,6 +102,7 @@ class Beh(object):
         self.child_obey = child_obey
         self.grandchildren = grandchildren
         self.die_as = die_as      # 'signal': killed by the signal; 'exit0': handler exits 0
+        self.ignore = tuple(ignore)  # signal numbers the process handles and survives (e.g. SIGHUP = reload)
 
 
 class KProc(object):
@@ -171,6 +172,7 @@ class Kernel(object):
                 if p is not None and p.state == 'alive':
                     self._die(p, inj['status'], 'injected')
                     inj['hit'] = p.pid
+                    inj['hit_call'] = self.calls
         self.advance()
 
     def advance(self):
@@ -293,7 +295,7 @@ class Kernel(object):
                      int(_signal.SIGURG)):
             return
         else:
-            if p.beh.obey is None:
+            if p.beh.obey is None or sig in p.beh.ignore:
                 return
             st = status_signal(sig) if p.beh.die_as == 'signal' else status_exit(0)
             when = self.clock.now + p.beh.obey
